@@ -271,7 +271,7 @@ def render_fragment(mol, nodes, descr, start, branch='asc', ring_scheme='1', des
         items = descr.get(n, [])
         if skip_first:
             items = items[1:]
-        return ''.join(SYM[o] + '[' + t + ']' for t, o in items)
+        return ''.join((':' if o == 1.5 else SYM[o]) + '[' + t + ']' for t, o in items)
 
     def rtext(n):
         return ''.join((SYM[o] if opening else '') + (str(dg) if dg < 10 else '%%%02d' % dg)
@@ -306,11 +306,11 @@ def render_fragment(mol, nodes, descr, start, branch='asc', ring_scheme='1', des
     body = emit(start, True)
     if lead and descr.get(start):
         t, o = descr[start][0]
-        body = '[' + t + ']' + SYM[o] + body
+        body = '[' + t + ']' + (':' if o == 1.5 else SYM[o]) + body
     return body
 
 
-def cut_descriptors(mol, comps, kinds):
+def cut_descriptors(mol, comps, kinds, colon=False):
     """descriptor lists per atom for the cut bonds; kinds: per cut '$' or '>' (cut index order = bond order)
     returns descr, base-graph edge multiplicities {(fi, fj): n}"""
     owner = {a: i for i, c in enumerate(comps) for a in c}
@@ -323,7 +323,7 @@ def cut_descriptors(mol, comps, kinds):
         lab = LABELS[k]
         kind = kinds[k % len(kinds)]
         k += 1
-        oo = 1 if o == 1.5 else o
+        oo = (1.5 if colon else 1) if o == 1.5 else o     # colon: the aromatic cut bond is annotated as ':' on its descriptors
         if kind == '$':
             ta, tb = '$' + lab, '$' + lab
         elif kind == '>':
